@@ -261,7 +261,7 @@ func expected(key []byte, members []string, healthy map[string]bool, anyHealthy 
 	unambiguous = true
 	for i := 0; i+1 < len(rk); i++ {
 		a, b := rk[i].score, rk[i+1].score
-		if math.IsNaN(a) || math.IsNaN(b) || !(a-b > 1e-9*math.Abs(a)) {
+		if math.IsNaN(a) || math.IsNaN(b) || !(a-b > 1e-12*math.Abs(a)) {
 			unambiguous = false
 		}
 	}
